@@ -16,6 +16,7 @@
    No proofs in this file. *)
 From Coq Require Import ZArith List Bool.
 Import ListNotations.
+From Osmo Require Import Gen.C06_consts.
 Open Scope Z_scope.
 
 Inductive err :=
@@ -415,9 +416,9 @@ Fixpoint unlock_list (s : state) (n count : Z) (ls : list lock) : result state :
 Definition withdraw_matured_locks (s : state) (n : Z) : result state :=
   do ls <- locks_of_ids s (it_lock_before_time s (s_now s));
   unlock_list s n 0 ls.
-(* abci.go EndBlocker (no synthetic locks), numLocksToDelete = 1000 *)
+(* abci.go EndBlocker (no synthetic locks); the two literals come from Gen/C06_consts.v *)
 Definition end_blocker (s : state) (height : Z) : result state :=
-  if Z.rem height 120 =? 0 then withdraw_matured_locks s 1000 else Ok s.
+  if Z.rem height endblock_period =? 0 then withdraw_matured_locks s num_locks_to_delete else Ok s.
 
 (* ForceUnlock (keeper) *)
 Definition force_unlock (s : state) (l : lock) : result state :=
